@@ -657,6 +657,10 @@ class Engine(object):
         table = self.tables.get(lookup_map.table_id)
         if table is not None and lookup_map is table._empty_lookup_column:
           continue
+        # A lookup map of a Table object that has been replaced since (e.g. by a table rename and
+        # its rollback) must not take down the current table's map of the same name.
+        if table is not None and table.all_columns.get(lookup_map.col_id) is not lookup_map:
+          continue
         if self.dep_graph.remove_node_if_unused(lookup_map.node):
           self.delete_column(lookup_map)
     finally:
